@@ -302,7 +302,28 @@ def check(prop, tier, seed, replay=None):
         else:
             finding_lines.append('NOTE: known finding %s no longer reproduces on this tree (stale entry)' % e['id'])
 
+    # repaired defects stay in the regression corpus: a fixed entry suppresses nothing
+    for e in findings:
+        if e.get('status') == 'fixed' and 'input' in e:
+            try:
+                back = pm.replay(ctx, e['input'])
+            except Exception as ex:
+                back = {'case': e['input'], 'what': 'replay of fixed finding %s raised %s: %s' % (e['id'], type(ex).__name__, ex)}
+            if back:
+                back.setdefault('case', e['input'])
+                back['regression_of'] = e['id']
+                res.failures.append(back)
+
     new_failures = [f for f in res.failures if canon(f['case']) not in known_inputs]
+    if new_failures:
+        try:
+            small = shrink(new_failures[0]['case'], lambda c: pm.replay(ctx, c) and canon(c) not in known_inputs, budget=200)
+            f2 = pm.replay(ctx, small)
+            if f2:
+                f2.setdefault('case', small)
+                new_failures.insert(0, f2)
+        except Exception:
+            pass
     broken = []
     if 'error' in gen_report:
         broken.append('translator: ' + gen_report['error'])
@@ -378,14 +399,95 @@ def check(prop, tier, seed, replay=None):
     return 0
 
 
+def write_root_module():
+    """lean/Genshi.lean imports every module under lean/Genshi (so `lake build Genshi` checks all)"""
+    mods = []
+    for p in lean_sources():
+        rel = os.path.relpath(p, LEAN)[:-5].replace(os.sep, '.')
+        mods.append(rel)
+    text = ''.join('import %s\n' % m for m in sorted(mods))
+    path = os.path.join(LEAN, 'Genshi.lean')
+    old = open(path).read() if os.path.exists(path) else None
+    if old != text:
+        with open(path, 'w') as f:
+            f.write(text)
+
+
 def setup():
     from harness import stage, extract_tables
     stage.stage('c')
     with Lock():
         extract_tables.regenerate()
+        write_root_module()
         rc, out = sh(['lake', 'build', 'Genshi', 'gdrv'], cwd=LEAN)
     print(out[-3000:])
     return 0 if rc == 0 else 2
+
+
+def shrink(case, fails, budget=300):
+    """greedy delta debugging over a JSON-like case: shorten strings and lists while
+    `fails(case)` stays true. Returns the smallest failing case found."""
+    import copy
+    best = copy.deepcopy(case)
+    n = [0]
+
+    def paths(x, pre=()):
+        if isinstance(x, dict):
+            for k in sorted(x):
+                yield from paths(x[k], pre + (k,))
+        elif isinstance(x, list):
+            yield pre
+            for i, y in enumerate(x):
+                yield from paths(y, pre + (i,))
+        elif isinstance(x, str):
+            yield pre
+
+    def get(x, p):
+        for k in p:
+            x = x[k]
+        return x
+
+    def put(x, p, v):
+        x = copy.deepcopy(x)
+        if not p:
+            return v
+        y = x
+        for k in p[:-1]:
+            y = y[k]
+        y[p[-1]] = v
+        return x
+
+    progress = True
+    while progress and n[0] < budget:
+        progress = False
+        for p in list(paths(best)):
+            try:
+                v = get(best, p)
+            except (KeyError, IndexError, TypeError):
+                continue
+            if not isinstance(v, (str, list)) or len(v) == 0:
+                continue
+            size = len(v)
+            chunk = max(1, size // 2)
+            while chunk >= 1 and n[0] < budget:
+                i = 0
+                changed = False
+                while i < len(v) and n[0] < budget:
+                    cand_v = v[:i] + v[i + chunk:]
+                    cand = put(best, p, cand_v)
+                    n[0] += 1
+                    ok = False
+                    try:
+                        ok = bool(fails(cand))
+                    except Exception:
+                        ok = False
+                    if ok:
+                        best, v, changed, progress = cand, cand_v, True, True
+                    else:
+                        i += chunk
+                if not changed:
+                    chunk //= 2
+    return best
 
 
 def main(argv):
